@@ -93,7 +93,7 @@ def run_case(case):
     from bioscrape.simulator import ModelCSimInterface, SafeModelCSimInterface
     C = Counter()
     cells = Counter()
-    viol = []
+    viol = util.ViolList()
     M = specmod.build_model(case, case["route"])
     plain = ModelCSimInterface(M)
     safe = SafeModelCSimInterface(M)
